@@ -543,10 +543,15 @@ func execTlvCol(a []string) Result {
 		}
 	}
 	check(rawRd, "seek-raw")
-	if isDict && !hasU64 {
-		check(dctRd, "seek-dict")
-	} else if isDict {
+	switch {
+	case isDict && hasU64:
+		// no ingest path produces uint64 records and ReadDictEnc has no uint64 case: no demand on the dictionary form
 		res.Tags = append(res.Tags, "col-dict-with-uint64(no-demand)")
+	case isDict && hasLong:
+		// a word longer than the record size limit can break the framing of the whole dictionary block: no demand
+		res.Tags = append(res.Tags, "col-dict-with-string>MAX_RECORD_SIZE(no-demand)")
+	case isDict:
+		check(dctRd, "seek-dict")
 	}
 	return res
 }
@@ -997,8 +1002,8 @@ func tlvGenVal(r *rand.Rand, profile int) string {
 			return tlvGenVal(r, 1)
 		}
 		return tlvGenVal(r, []int{0, 3}[r.Intn(2)])
-	default: // anything
-		return tlvGenVal(r, r.Intn(6))
+	default: // anything the JSON path can produce
+		return tlvGenVal(r, r.Intn(5))
 	}
 }
 
@@ -1044,7 +1049,10 @@ func tlvGenCol(r *rand.Rand, tier string) string {
 	if r.Intn(4) == 0 {
 		limit = 1 + r.Intn(7)
 	}
-	profile := r.Intn(9)
+	profile := r.Intn(10)
+	if profile == 5 && r.Intn(3) != 0 {
+		profile = 7
+	}
 	vals := make([]string, n)
 	for i := range vals {
 		vals[i] = tlvGenVal(r, profile)
